@@ -504,7 +504,7 @@ def fcol(frame, name):
 
 
 def label_key(v):
-    """row labels of a pandas object (E11): None = unlabelled (array / scalar / single row); ("empty", None) = a table without
+    """row labels of a pandas object (E17): None = unlabelled (array / scalar / single row); ("empty", None) = a table without
     rows, which adopts the labels of the first column stored into it; otherwise (kind, family) with kind "pos" = RangeIndex
     0..n-1, "tok" = labels not known to be 0..n-1, and family = the label family (shared by copies, selections and sorts of one
     table; renewed by reset_index and by constructing a new table)"""
